@@ -11,9 +11,10 @@ import tempfile
 from .. import common, cbuild, refsched
 from ..common import Stats, Run, pmap, chunks
 
-PERIOD_ALPHABET = (None, -1, 1, 2, 3, 5)
+PERIOD_ALPHABET = (None, -1, 0, 1, 2, 3, 5)  # 0: due on every call with a new timestamp
 WRAP = (1 << 32) - 3
 START_NEAR_WRAP = (1 << 32) - 2
+HALF_RANGE = ((1 << 31) - 1, 1 << 31, 0x90000000 - 10)
 
 MAIN_TMPL = r"""
 #include <stdio.h>
@@ -126,7 +127,7 @@ def delta_alphabet(periods):
     d = {0, 1}
     for p in ps:
         d |= {p - 1, p, p + 1, 2 * p}
-    d = sorted(d)
+    d = sorted(x for x in d if x >= 0)
     return d + [WRAP]
 
 
@@ -213,6 +214,13 @@ def make_worker(tier):
                     hists.append(h)
                 for h in itertools.product(D, repeat=L - 1):
                     hists.append((START_NEAR_WRAP,) + h)
+                if len(periods) == 1 or (len(periods) == 2 and set(periods) <= {None, 0, 2, 3}):
+                    # half-range gaps: a pause of 2^31 ticks or a first call past 2^31 is still "non-decreasing
+                    # (wrapping)" time; at the first, second and third call
+                    for big in HALF_RANGE:
+                        for pos in (0, 1, 2):
+                            for h in itertools.product(D, repeat=L - 1):
+                                hists.append(h[:pos] + (big,) + h[pos:])
                 for h in hists:
                     lines.append(" ".join("%d:%d" % (d, k % 2) for k, d in enumerate(h)))
                 r = subprocess.run([exe], input="\n".join(lines) + "\n", stdout=subprocess.PIPE, stderr=subprocess.PIPE, text=True, timeout=3600)
@@ -416,7 +424,7 @@ def run(tier):
     if tier != "quick":
         run_enumerated(r.stats, tier, r)
     r.rule = (
-        "states = call-history prefixes: for every device (1..3 messages, thorough 4; periods from {absent,-1,1,2,3,5}) EVERY history of the length bound over the delta alphabet (incl. 32-bit wrap) is run on the "
+        "states = call-history prefixes: for every device (1..3 messages, thorough 4; periods from {absent,-1,0,1,2,3,5}) EVERY history of the length bound over the delta alphabet (incl. 32-bit wrap) is run on the "
         "generated scheduler, one forked process per history so the function-static state is genuinely initial; oracle = reference automaton per call + independent trace invariant + frame = encoding of the "
         "current value. non-trivial = history with at least one transmission."
     )
